@@ -1254,6 +1254,12 @@ func TestVerifC31HandshakeState(t *testing.T) {
 			s := &pub.State13
 			if rapid.Bool().Draw(rt, "ksk") {
 				s.KeyShareKeys = genPub(rt, byName["KeySharePrivateKeys"], "ksk").Interface().(*KeySharePrivateKeys)
+				// "KeyShareKeys will take precedence if both are set": callers that still mirror a key into the
+				// deprecated field must get the KeyShareKeys view converted, not the deprecated key.
+				if rapid.Bool().Draw(rt, "deprecated_ecdhe_too") {
+					s.EcdheKey = vf31ECDH[rapid.IntRange(0, len(vf31ECDH)-1).Draw(rt, "deprecated_key")]
+					st.Class("handshake-state:tls13:both-key-fields-set")
+				}
 			}
 			if rapid.Bool().Draw(rt, "suite") {
 				s.Suite = genPub(rt, byName["CipherSuiteTLS13"], "suite").Interface().(*PubCipherSuiteTLS13)
